@@ -131,6 +131,33 @@ def gen_scenario(rng, ctype, r, c, F, sparse=0):
     return None, None, attempt
 
 
+def gen_kit_scenario(rng, ctype, p, F):
+    """focus family: a characterised kit.  Every standard spans all VNA ports
+    and is entered as a full S matrix through vnacal_new_add_mapped_matrix*
+    (zeros named explicitly by the caller, not filled in by the library):
+    two or three characterised p-ports first, then reflect sets on all
+    ports, which are the only leakage samples.  At least eight distinct
+    parameters, so the per-calibration parameter table grows while the
+    standards are entered."""
+    for attempt in range(6):
+        sc = calgen.Scenario(ctype, p, p, F, rng)
+        ports = list(range(1, p + 1))
+        for _ in range(int(rng.integers(2, 4))):
+            sc.add_matrix(list(rng.permutation(ports)) if rng.random() < 0.3
+                          else ports)
+        for _ in range(int(rng.integers(3, 6))):
+            sc.add_reflect(ports, [sc.rparam(1.0, False) for _q in ports])
+        for st in sc.stds:
+            st.form = sc.form
+            st.entry = "mapped_matrix"
+            st.full_rows = st.full_cols = True
+            st.use_null_map = (st.ports == ports and rng.random() < 0.5)
+        ok, kappa = sc.well_determined(KAPPA_MAX)
+        if ok:
+            return sc, kappa, attempt
+    return None, None, attempt
+
+
 def judge(sc, kappa, lines, res, text, part, cell):
     viol = part["violations"]
 
@@ -236,13 +263,28 @@ def work(chunk_id, payload):
         F = int(rng.choice([1, 1, 2, 3, 5, 7]))
         if max(r, c) >= 4:
             F = min(F, 2)
-        sc, kappa, att = gen_scenario(rng, ctype, r, c, F, sparse)
+        kit = k % 8 == 3
+        if kit:
+            ctype = physics.LEAKAGE_OUTSIDE[int(rng.integers(0, 4))]
+            r = c = int(rng.choice([2, 2, 3]))
+            filecheck = False
+            sc, kappa, att = gen_kit_scenario(rng, ctype, r, F)
+        else:
+            sc, kappa, att = gen_scenario(rng, ctype, r, c, F, sparse)
         if sc is None:
             cnt["skipped_not_well_determined"] = cnt.get(
                 "skipped_not_well_determined", 0) + 1
             continue
         sc.duts = sc.rand_dut()
         sc.filecheck = filecheck
+        if kit:
+            cnt["kit_scenarios"] = cnt.get("kit_scenarios", 0) + 1
+        if kit or rng.random() < 0.35:
+            # foreign parameters in the same vnacal_t: sparse handles
+            sc.foreign_bursts = [int(x) for x in rng.integers(0, 20, 24)]
+            sc.foreign_bursts[0] = int(rng.integers(0, 45))
+            cnt["scenarios_with_foreign_parameters"] = cnt.get(
+                "scenarios_with_foreign_parameters", 0) + 1
         s, lines = calgen.build_script(sc, sc.duts)
         if filecheck:
             s.op("vnacal_set_dprecision $vc 1000")
@@ -318,6 +360,12 @@ def main():
              "applicable vnacal_new_add_* function with full/abbreviated "
              "matrices, NULL/identity/permuted port maps, const/scalar/vector "
              "parameters, m or a/b form; DUT = random complex matrix; "
+             "an eighth are characterised kits (every standard a full S matrix "
+             "with explicit zeros through add_mapped_matrix, >= 8 distinct "
+             "parameters); "
+             "a third of the scenarios with bursts of foreign parameters in "
+             "the same vnacal_t before and between the standards (sparse "
+             "handles); "
              "a quarter of the square / 1x2 / 2x1 scenarios with a common "
              "receiver gain and reference waves scaled by 1e-7 .. 1e4; "
              "distinct = distinct (type, rows, cols, form, entry point, "
